@@ -81,6 +81,9 @@ static inline double HamiltonianPart_getMatrixElement(struct HamiltonianPart *hp
 }
 //@tu src/pomerol/HamiltonianPart.cpp
 //@maythrow HamiltonianPart_getEigenValue HamiltonianPart_getEigenState StatesClassification_getFockState
+/* twins for the other spelling of an increment (`++it` for `it++` and vice versa): same effect.  X_inc yields the iterator after the step
+ * (exact); X_postinc made from X_inc is void, so a use of its value does not compile (UNDECIDED) instead of being modelled wrongly */
+#define PartVecIt_inc(it_) (PartVecIt_postinc(it_), (it_))      /* pre-increment: the iterator itself, after the step */
 //@function Pomerol::HamiltonianPart::getEigenValue(unsigned long) const as HamiltonianPart_getEigenValue
 //@end
 //@tu src/pomerol/DensityMatrixPart.cpp
